@@ -137,7 +137,8 @@ def _clean(obj):
 class Collector:
     """Accumulates what one shard explored."""
 
-    def __init__(self, max_samples=3):
+    def __init__(self, max_samples=3, keep_smallest=False):
+        self.keep_smallest = keep_smallest
         self.evaluations = 0
         self.nontrivial = set()
         self.labels = {}
@@ -171,6 +172,10 @@ class Collector:
             rec["count"] += 1
             if rec["first"] is None:
                 rec["first"] = {"case": _clean(case), "detail": detail}
+            elif self.keep_smallest:
+                c = _clean(case)
+                if len(json.dumps(c)) < len(json.dumps(rec["first"]["case"])):
+                    rec["first"] = {"case": c, "detail": detail}
 
     def add_discard(self, reason):
         self.evaluations += 1
